@@ -10,6 +10,8 @@ import StarsimModel.Lemmas.Grow
 import StarsimModel.Generated.GrowOps
 import StarsimModel.Lemmas.History
 import StarsimModel.Generated.HistoryWriters
+import StarsimModel.Lemmas.Link
+import StarsimModel.Generated.DistLink
 
 namespace StarsimModel.C03
 open StarsimModel.Slots StarsimModel.Rng
@@ -338,6 +340,44 @@ theorem C03_history_trim_counterexample :
     (Hist.run advP jumpedP (Hist.init (0, [])) [.call 3, .call 1, .trim 1, .jump 5]).cur ≠ jumpedP (0, []) 5
     ∧ (Hist.run advP jumpedP (Hist.init (0, [])) [.call 3, .trim 1, .jump 5]).cur
         ≠ (Hist.run advP jumpedP (Hist.init (0, [])) [.call 3, .call 1, .trim 1, .jump 5]).cur := by decide
+
+/-! ### Which generator object a draw reads (Model/Link.lean): the object's lifecycle does not matter -/
+
+open StarsimModel.Link in
+/-- The statements of `Dist.init` / `Dist.process_dist` that touch the Dist's generator or the SciPy sampler's random state
+    (REGENERATED from the source on every run) end with the sampler linked to the generator just created, whatever the object
+    went through before; and nothing else in starsim/distributions.py rebinds either reference. -/
+theorem C03_init_links_sampler : endsLinked Gen.distInitProg = true ∧ Gen.otherRngWriters = [] := by decide
+
+open StarsimModel.Link in
+/-- **The sampler always reads the Dist's own current generator**: for every statement list accepted by `endsLinked`, from every
+    state of the object (fresh, self-initialised by strict=False, already initialised, stale), after one initialisation followed
+    by ANY sequence of further initialisations and calls.  So `reset` / `jump`, which act on `self.rng`, govern every draw. -/
+theorem C03_sampler_reads_own_generator (prog : List Stmt) (hp : endsLinked prog = true) (d : D) (ops : List Link.Op) :
+    (Link.run prog d (.init :: ops)).link = (Link.run prog d (.init :: ops)).rng := by
+  have h := run_ok prog hp ops (initOnce prog d) (initOnce_ok prog hp d)
+  simpa [Link.run, Link.step, D.ok] using h
+
+open StarsimModel.Link in
+/-- … for the code as it is today. -/
+theorem C03_sampler_reads_own_generator_code (d : D) (ops : List Link.Op) :
+    (Link.run Gen.distInitProg d (.init :: ops)).link = (Link.run Gen.distInitProg d (.init :: ops)).rng :=
+  C03_sampler_reads_own_generator _ C03_init_links_sampler.1 d ops
+
+open StarsimModel.Link in
+/-- The criterion is needed: linking "only once" (an arrangement the code does NOT have) leaves a re-initialised distribution
+    drawing from the generator of its first initialisation, which `reset` / `jump` no longer reach; so does freezing the sampler
+    after the link. -/
+theorem C03_link_once_counterexample :
+    (Link.run [.newRng, .newSampler, .link .firstInitOnly] fresh [.init, .sample, .init]).link
+      ≠ (Link.run [.newRng, .newSampler, .link .firstInitOnly] fresh [.init, .sample, .init]).rng
+    ∧ (Link.run [.newRng, .link .always, .newSampler] fresh [.init]).link ≠ (Link.run [.newRng, .link .always, .newSampler] fresh [.init]).rng := by
+  decide
+
+open StarsimModel.Link in
+example : Link.run Gen.distInitProg fresh [.init, .sample, .init, .init, .sample] = ⟨3, 3, 3, true⟩ := by decide
+open StarsimModel.Link in
+example : endsLinked [.newRng, .newSampler, .link .always, .link .firstInitOnly] = true ∧ endsLinked [.newRng, .link .firstInitOnly] = false := by decide
 
 open StarsimModel.Hist in
 example : (Hist.run advP jumpedP (Hist.init (0, [])) [.call 3, .jump 2, .call 1, .call 4, .reset 1, .jump 7]).cur = (7, [])
